@@ -336,6 +336,9 @@ def _hcase(draw):
             "rows": draw(st.lists(st.integers(0, 3 * n - 1), min_size=2, max_size=3, unique=True))}
 
 
+HESS_REL = 2e-5
+
+
 class Hessian(SubCheck):
     name = "hessian"
     budget = {"quick": 40, "thorough": 1200}
@@ -371,7 +374,7 @@ class Hessian(SubCheck):
         for k, i in enumerate(case["rows"]):
             with silence():
                 H[k] = tonp(torch.autograd.grad(gf[i], mol.coordinates, retain_graph=True)[0]).reshape(-1)[: 3 * nat]
-        worst = 0.0
+        worst, ratio = 0.0, 0.0
         for k, i in enumerate(case["rows"]):
             e = np.zeros(3 * nat)
             e[i] = 1.0
@@ -381,11 +384,17 @@ class Hessian(SubCheck):
                 gg, _, _ = forces(X + h * e, 0, False)
                 return tonp(gg).reshape(-1)[: 3 * nat]
 
-            h = 1e-3
-            fdrow = (-gi(2 * h) + 8 * gi(h) - 8 * gi(-h) + gi(-2 * h)) / (12 * h)
+            rows_fd = []
+            for h in (1e-3, 5e-4):
+                rows_fd.append((-gi(2 * h) + 8 * gi(h) - 8 * gi(-h) + gi(-2 * h)) / (12 * h))
+            fdrow = rows_fd[1]
+            # the energy has tiny inherited kinks (DESIGN 1.5 "Finite differences"); a stencil that straddles one gives a slope ~ 1/h
+            if float(np.abs(rows_fd[0] - rows_fd[1]).max()) > 0.25 * (HESS_REL * max(1.0, float(np.abs(fdrow).max())) + 2e-6):
+                return Outcome.inconclusive("fd_not_consistent", labels)
             err = float(np.abs(H[k] - fdrow).max())
             worst = max(worst, err)
-            if err > 2e-5 * max(1.0, float(np.abs(fdrow).max())) + 2e-6:
+            ratio = max(ratio, err / (HESS_REL * max(1.0, float(np.abs(fdrow).max())) + 2e-6))
+            if err > HESS_REL * max(1.0, float(np.abs(fdrow).max())) + 2e-6:
                 j = int(np.abs(H[k] - fdrow).argmax())
                 return Outcome.fail("hessian_row_differs_from_fd_of_gradient", f"d2E/dx_{i} dx_{j}: back-propagation {H[k][j]:.8e}, finite difference of the gradient {fdrow[j]:.8e} ({case['method']} {case['tpl']})", labels, True, hess_err=err)
         # symmetry among the drawn rows
@@ -393,7 +402,7 @@ class Hessian(SubCheck):
             for b, j in enumerate(case["rows"]):
                 if a < b and abs(H[a][j] - H[b][i]) > 1e-7 * max(1.0, abs(H[a][j])):
                     return Outcome.fail("hessian_not_symmetric", f"H[{i},{j}] = {H[a][j]:.10e}, H[{j},{i}] = {H[b][i]:.10e} ({case['method']} {case['tpl']})", labels, True)
-        return Outcome.ok(True, labels, hess_err=worst)
+        return Outcome.ok(True, labels, hess_err=worst, hess_err_over_tol=ratio)
 
 
 SUBCHECKS = [Reach(), Derivative(), Geometry(), Hessian()]
